@@ -15,7 +15,8 @@ TRACE_MODULE = "PurityTrace"
 TRACE_CFG = "PurityTrace.cfg"
 GROUP_KEY = "group"
 RULE = ("for each source (generated rich UFOs / families, fixtures of tests/data) every call history (single call; twice; "
-        "TTF then OTF and the reverse; static then variable; inplace) is run in FRESH subprocesses under PYTHONHASHSEED in "
+        "TTF then OTF and the reverse; static then variable; inplace; layout-heavy sources with writer options and sources with "
+        "lib-selected filters -- PropagateAnchors on ligature marks with curved components -- through one compileTTF) is run in FRESH subprocesses under PYTHONHASHSEED in "
         "{0,1,2,3,17,101} x {defcon, ufoLib2} x {in memory, saved and reopened}; sha256 of the saved bytes is logged per call and "
         "TLC rebuilds the memo (function, options \\ inplace, content-before) -> digest over the union of all processes' logs; "
         "non-trivial = a key observed in at least two different environments; distinct by (source, function, options, env)")
@@ -78,6 +79,11 @@ def cases(tier, seed):
         else:
             c = layout_gen.gdefcurs_font(rng)
         sources.append(("ufo", {"kind": "ufo", "ufo": c["ufo"]}, f"gen-layout-{k}"))
+    for k in range(2 if tier == "quick" else 10):
+        # filters chosen through the UFO lib (PropagateAnchors on ligature marks with curved components): compared across
+        # UFO libraries and storage
+        c = layout_gen.propagate_font(rng)
+        sources.append(("ufo", {"kind": "ufo", "ufo": c["ufo"]}, f"gen-propagate-{k}"))
     for k in range(1 if tier == "quick" else 8):
         sources.append(("ds", {"kind": "family", "family": gen.rich_family(rng, n_masters=rng.choice([2, 3]))}, f"gen-fam-{k}"))
     fx_u = ["TestFont.ufo", "ColorTest.ufo", "TestMathFont-Regular.ufo"] if tier == "quick" else \
@@ -92,7 +98,7 @@ def cases(tier, seed):
     k = 0
     for kind, src, sid in sources:
         hists = UFO_HISTORIES if kind == "ufo" else DS_HISTORIES
-        if sid.startswith("gen-layout"):
+        if sid.startswith("gen-layout") or sid.startswith("gen-propagate"):
             hists = [[("compileTTF", {})]]
         elif tier == "quick":
             hists = rng.sample(hists, 4)
@@ -101,6 +107,8 @@ def cases(tier, seed):
             # every history is run in >= 3 environments (quick) / all (thorough)
             if sid.startswith("gen-layout"):
                 chosen = [(hs, "ufoLib2", "memory") for hs in ["0", "1", "2", "3", "5", "17", "101", "4242"]] + [(seeds[0], "defcon", "disk")]
+            elif sid.startswith("gen-propagate"):
+                chosen = [(seeds[0], "ufoLib2", "memory"), (seeds[0], "defcon", "memory"), (seeds[1], "defcon", "disk"), (seeds[1], "ufoLib2", "disk")]
             else:
                 chosen = rng.sample(envs, 3) if tier == "quick" else envs
             if src["kind"].endswith("-path"):
